@@ -61,7 +61,10 @@ def cases(draw):
         elif k == 4:
             steps.append(['print', ('abcdefghij' * 410 + '\n') * draw(st.sampled_from([1, 5, 48]))])
         elif k <= 7:
-            steps.append(['ask', draw(st.sampled_from(TOKENS))])
+            st_ = ['ask', draw(st.sampled_from(TOKENS))]
+            if slow and draw(st.integers(0, 2)) == 0:
+                st_.append('split')       # the prompt arrives in two pieces with a pause longer than the timeout between them
+            steps.append(st_)
         elif k == 8:
             steps.append(['say', SAY])
         elif slow:
@@ -118,7 +121,13 @@ def check_case(case, col=None):
         if s[0] == 'print':
             actions.append(['w', s[1].encode('utf-8').hex()])
         elif s[0] == 'ask':
-            actions.append(['w', s[1].encode('utf-8').hex()])
+            if len(s) > 2 and 'TIMEOUT' in case['events'] and case['events']['TIMEOUT'][1] == 'none':
+                k2 = max(1, len(s[1]) // 2)
+                actions.append(['w', s[1][:k2].encode('utf-8').hex()])
+                actions.append(['s', 1.5])
+                actions.append(['w', s[1][k2:].encode('utf-8').hex()])
+            else:
+                actions.append(['w', s[1].encode('utf-8').hex()])
             actions.append(['recuntil', b'\n'.hex()])
         elif s[0] == 'say':
             actions.append(['w', s[1].encode('utf-8').hex()])
@@ -361,12 +370,19 @@ def _probe_timeout_event():
                 'withexit': True, 'slow': True, 'extra': None})
 
 
+def _probe_split_prompt():
+    check_case({'text_mode': False, 'steps': [['print', 'hello\n'], ['ask', 'PASS:', 'split'], ['print', 'done\n']],
+                'events': {'PASS:': ['str', 'alice'], 'TIMEOUT': ['func', 'none']}, 'order': ['PASS:', 'TIMEOUT'], 'as_list': True,
+                'exit': 3, 'withexit': True, 'slow': True, 'extra': None})
+
+
 def _probe_timeout_stop():
     check_case({'text_mode': True, 'steps': [['print', 'AAA\n'], ['sleep'], ['print', 'BBB\n']],
                 'events': {'TIMEOUT': ['func', 'stop']}, 'order': ['TIMEOUT'], 'as_list': True, 'exit': 0,
                 'withexit': False, 'slow': True, 'extra': 7})
 
 
-PROBES = [('probe:timeout-callback-stop', 'a TIMEOUT callback returning true ends run() with the output seen so far', _probe_timeout_stop),
+PROBES = [('probe:prompt-split-across-timeout-event', 'a prompt whose two halves arrive on either side of a TIMEOUT event is still answered', _probe_split_prompt),
+          ('probe:timeout-callback-stop', 'a TIMEOUT callback returning true ends run() with the output seen so far', _probe_timeout_stop),
           ('probe:timeout-event-duplicates-output', 'with TIMEOUT as an event the not yet consumed output is appended again '
            'on every firing', _probe_timeout_event)][::-1]
